@@ -41,11 +41,42 @@ NAMED_PROPS[("BasicBlock", "sub_return_point")] = T.Opt(BB)
 NAMED_PROPS[("BasicBlock", "called_subroutine")] = SUB
 NAMED_PROPS[("Subroutine", "retsub_blocks")] = T.List(BB)
 
-for _p, _ty, _req in (("is_callsub_block", T.Bool, None), ("is_retsub_block", T.Bool, None), ("is_sub_return_point", T.Bool, None),
+for _p, _ty, _req in (("is_sub_return_point", T.Bool, None),
                       ("callsub_block", BB, "is_sub_return_point"), ("sub_return_point", T.Opt(BB), "is_callsub_block"),
                       ("called_subroutine", SUB, "is_callsub_block")):
     c = contract(B_ + _p, params={"self": BB}, returns=_ty, trusted=True, trusted_reason=NAMING, tags=["C04", "C05"],
                  raises=[("TealerException", (lambda r: lambda self: Not(getattr(self, r)))(_req))] if _req else [])
+    ensures(c, "name", (lambda p: lambda self, result: Eq(result, getattr(self, p)))(_p), naming=True)
+
+
+# class invariant of BasicBlock in a parsed contract (C04: the blocks partition the retained instructions, none is empty;
+# decided by bounded/cfgcheck.py): assumed wherever a block is touched
+def _bb_invariant(ex, st, ref):
+    K = ex.ct.cls("BasicBlock")
+    ins, _ = ex.read_field(ref, K, "_instructions", st)
+    sub, _ = ex.read_field(ref, K, "_subroutine", st)
+    # ... and every block belongs to a unit (main or a subroutine): `_subroutine` is set (C05)
+    return [ex.list_len(ins, st).term >= 1, z3.Not(sub.is_none().term)]
+
+
+from pyvc.execbase import ON_TOUCH   # noqa: E402
+ON_TOUCH.setdefault("BasicBlock", []).append(_bb_invariant)
+
+
+def exit_ins(block):
+    """the last instruction of the block (a term), read from the heap"""
+    ctx = current()
+    K = ctx.ex.ct.cls("BasicBlock")
+    ins, _ = ctx.ex.read_field(block, K, "_instructions", ctx.st)
+    n = ctx.ex.list_len(ins, ctx.st).term
+    return ctx.ex.list_get(ins, n - 1, ctx.st)
+
+
+# the two exit-instruction observations: verified against the instruction list, and named
+for _p, _cls in (("is_callsub_block", "Callsub"), ("is_retsub_block", "Retsub")):
+    c = contract(B_ + _p, params={"self": BB}, returns=T.Bool, tags=["C04", "C05"], touch=["self"])
+    ensures(c, "exit_class", (lambda cls: lambda self, result: Iff(result, IsInstance(exit_ins(self), cls)))(_cls),
+            note="the block ends in this instruction")
     ensures(c, "name", (lambda p: lambda self, result: Eq(result, getattr(self, p)))(_p), naming=True)
 c = contract("tealer/teal/subroutine.py::Subroutine.retsub_blocks", params={"self": SUB}, returns=T.List(BB), trusted=True,
              trusted_reason=NAMING, tags=["C05"])
@@ -80,13 +111,39 @@ def _blocks_typed(LEN, AT, function, block):
                                                    patterns=[AT(f, b, j)])))
 
 
-c = contract(U + "next_blocks_global", params={"function": FN, "block": BB}, returns=T.List(BB), trusted=True,
-             trusted_reason=NAMING, tags=["C04", "C05"])
+# callees of next_blocks_global that stay opaque (named)
+RPB_LEN = z3.Function("RPB_LEN", z3.IntSort(), z3.IntSort(), z3.IntSort())
+RPB_AT = z3.Function("RPB_AT", z3.IntSort(), z3.IntSort(), z3.IntSort(), z3.IntSort())
+NAMED_PROPS[("BasicBlock", "subroutine")] = SUB
+c = contract(B_ + "subroutine", params={"self": BB}, returns=SUB, trusted=True, trusted_reason=NAMING, tags=["C05"],
+             raises=[("TealerException", lambda self: IsNone(self._subroutine))])
+ensures(c, "name", lambda self, result: Eq(result, self.subroutine), naming=True)
+c = contract("tealer/teal/functions.py::Function.return_point_blocks", params={"self": FN, "subroutine": SUB}, returns=T.List(BB),
+             trusted=True, trusted_reason=NAMING, tags=["C05"])
+ensures(c, "name", lambda self, subroutine, result: _seq_is(result, RPB_LEN, RPB_AT, self, subroutine), naming=True)
+
+
+def _same_list(a, b):
+    return VBool(a.ref == b.ref)
+
+
+c = contract(U + "next_blocks_global", params={"function": FN, "block": BB}, returns=T.List(BB), tags=["C04", "C05"], touch=["block"])
+ensures(c, "plain", lambda block, result: Implies(And(Not(block.is_retsub_block), Not(block.is_callsub_block)),
+                                                  lambda: _same_list(result, block._next)),
+        note="a block that ends neither in retsub nor in callsub: its successors in the global graph are its own successors")
+ensures(c, "call", lambda block, result: Implies(And(Not(block.is_retsub_block), block.is_callsub_block),
+                                                 lambda: And(Len(result) == 1, Eq(result[0], block.called_subroutine._entry))),
+        note="a call site: the only successor in the global graph is the entry of the called subroutine")
+ensures(c, "return", lambda function, block, result: Implies(block.is_retsub_block, lambda: _seq_is(
+    result, RPB_LEN, RPB_AT, function, block.subroutine)),
+    note="a retsub block: the successors are the return points of the call sites of its subroutine")
 ensures(c, "name", lambda function, block, result: _seq_is(result, NBG_LEN, NBG_AT, function, block), naming=True)
 c = contract(U + "prev_blocks_global", params={"function": FN, "block": BB}, returns=T.List(BB), trusted=True,
              trusted_reason=NAMING, tags=["C04", "C05"])
 ensures(c, "name", lambda function, block, result: _seq_is(result, PBG_LEN, PBG_AT, function, block), naming=True)
-c = contract(U + "leaf_block_global", params={"block": BB}, returns=T.Bool, trusted=True, trusted_reason=NAMING, tags=["C04", "C05"])
+c = contract(U + "leaf_block_global", params={"block": BB}, returns=T.Bool, tags=["C04", "C05"], touch=["block"])
+ensures(c, "leaf", lambda block, result: Iff(result, And(Len(block._next) == 0, Not(block.is_retsub_block), Not(block.is_callsub_block))),
+        note="a leaf of the global graph: no successor, and neither a retsub block (continues at the return points) nor a call site")
 ensures(c, "name", lambda block, result: Eq(result, VBool(LEAF(block.term))), naming=True)
 
 # `_null_set(key)` / `_universal_set(key)` are constants of the domain: name them
@@ -682,3 +739,160 @@ invariant(c, 2, "ind", lambda it, i, self, key, block, entry: VBool(z3.ForAll(
 invariant(c, 2, "ind", lambda it, i, self, keys_with_gtxn, key, block, entry, cur, i_key: VBool(
     gtxn_frame(self, keys_with_gtxn, block, entry, cur.st, upto_keys=i_key.term, cur_key=key.term, upto_ind=i.term)), label="frame_so_far2")
 must_fail(c, "cells_unchanged", lambda old, new: VBool(_cells(new.st) == _cells(old.st)))
+
+
+# ---- _path_level_constraints ------------------------------------------------------------------------------------------------
+PATHS = T.Dict(T.Str, T.Dict(BB, T.Dict(BB, A)), default=True)
+MIDS = "D.map:Int->Int"                     # successor -> (predecessor -> value) dicts
+
+
+def p_mid(self, kterm, st=None):
+    ctx = current()
+    return VDict(BB, T.Dict(BB, A), z3.Select(ctx.ex.dict_map(self._path_contexts, st or ctx.st), kterm))
+
+
+def p_inner(self, kterm, succ, st=None):
+    ctx = current()
+    return VDict(BB, A, z3.Select(ctx.ex.dict_map(p_mid(self, kterm, st), st or ctx.st), succ))
+
+
+def p_present(self, kterm, succ, block):
+    ctx = current()
+    return z3.And(z3.Select(ctx.ex.dict_dom(self._path_contexts, ctx.st), kterm), dhas(p_mid(self, kterm), succ),
+                  dhas(p_inner(self, kterm, succ), block.term))
+
+
+def p_cell(self, kterm, succ, block):
+    return dsel(p_inner(self, kterm, succ), block.term)
+
+
+def p_tree(self):
+    """the path-context structure is a tree of distinct dict objects, all existing, none shared with the block contexts"""
+    ctx = current()
+    st = ctx.st
+    dom, mp = ctx.ex.dict_dom(self._path_contexts, st), ctx.ex.dict_map(self._path_contexts, st)
+    ddom = st.harr("D.dom:Int", z3.IntSort(), z3.ArraySort(z3.IntSort(), z3.BoolSort()))
+    mid = st.harr(MIDS, z3.IntSort(), z3.ArraySort(z3.IntSort(), z3.IntSort()))
+    k1, k2 = z3.String(fresh_name("tk")), z3.String(fresh_name("tk"))
+    s1, s2 = z3.Int(fresh_name("ts")), z3.Int(fresh_name("ts"))
+    top = st.alloc_ptr()
+    m1, m2 = z3.Select(mp, k1), z3.Select(mp, k2)
+    i1, i2 = z3.Select(z3.Select(mid, m1), s1), z3.Select(z3.Select(mid, m2), s2)
+    p1, p2 = z3.And(z3.Select(dom, k1), z3.Select(z3.Select(ddom, m1), s1)), z3.And(z3.Select(dom, k2), z3.Select(z3.Select(ddom, m2), s2))
+    return z3.And(
+        self._path_contexts.ref != self._block_contexts.ref,
+        z3.ForAll([k1], z3.Implies(z3.Select(dom, k1), z3.And(m1 > 0, m1 < top))),
+        z3.ForAll([k1, k2], z3.Implies(z3.And(z3.Select(dom, k1), z3.Select(dom, k2), k1 != k2), m1 != m2)),
+        z3.ForAll([k1, s1], z3.Implies(p1, z3.And(i1 > 0, i1 < top))),
+        z3.ForAll([k1, s1, k2], z3.Implies(z3.And(p1, z3.Select(dom, k2)), i1 != m2)),
+        z3.ForAll([k1, s1, k2, s2], z3.Implies(z3.And(p1, p2, z3.Or(k1 != k2, s1 != s2)), i1 != i2)))
+
+
+def takes_jump(block, v):
+    """visit v leaves the block through the jump edge of its bz / bnz"""
+    e = exit_ins(block)
+    a0 = arg0_of(e.term)
+    nzv = nzq(v, a0).term
+    return z3.If(_isinst(e.term, ["BZ"]), z3.Not(nzv), nzv)
+
+
+def branch_known(block):
+    e = exit_ins(block)
+    return z3.And(_isinst(e.term, ["BZ", "BNZ"]), IsInstance(arg0_of(e.term), "KnownStackValue").term)
+
+
+def p_edges_exist(self, keys, block, upto=None, inner_upto=None, cur_key=None):
+    f, b = fn_of(self).term, block.term
+    m = z3.Int(fresh_name("em"))
+
+    def all_succ(k, bound):
+        return z3.ForAll([m], z3.Implies(z3.And(m >= 0, m < bound), p_present(self, k, NBG_AT(f, b, m), block)))
+    base = _all_j(keys, lambda j, k: all_succ(k, NBG_LEN(f, b)), upto)
+    if cur_key is not None:
+        base = z3.And(base, all_succ(cur_key, inner_upto))
+    return base
+
+
+def p_edges_top(self, keys, block, upto=None, inner_upto=None, cur_key=None):
+    f, b = fn_of(self).term, block.term
+    m, x = z3.Int(fresh_name("em")), z3.Int(fresh_name("ex"))
+
+    def all_succ(k, bound):
+        return z3.ForAll([m, x], z3.Implies(z3.And(m >= 0, m < bound), g_(VStr(k), p_cell(self, k, NBG_AT(f, b, m), block), x)))
+    base = _all_j(keys, lambda j, k: all_succ(k, NBG_LEN(f, b)), upto)
+    if cur_key is not None:
+        base = z3.And(base, all_succ(cur_key, inner_upto))
+    return base
+
+
+def p_edge_sound(self, kterm, block, v):
+    """the cells of the out-edges admit the visits that take them (known bz / bnz operand)"""
+    ctx = current()
+    key = VStr(kterm)
+    nxt = block._next
+    n = ctx.ex.list_len(nxt, ctx.st).term
+    n0, n1 = ctx.ex.list_get(nxt, 0, ctx.st).term, ctx.ex.list_get(nxt, 1, ctx.st).term
+    e = exit_ins(block)
+    E = ctx.ex.ct.cls("Instruction")
+    enext, _ = ctx.ex.read_field(VRef(e.term, E, ctx.ex), E, "_next", ctx.st)
+    en = ctx.ex.list_len(enext, ctx.st).term
+    jump = takes_jump(block, v)
+    kd = keydef(v, key).term
+
+    def adm(succ):
+        return admits(key, VAbs(A, p_cell(self, kterm, succ, block)), v).term
+    same_target = z3.And(n == 1, en == 2)
+    return z3.And(
+        z3.Implies(z3.And(kd, same_target), adm(n0)),
+        z3.Implies(z3.And(kd, n == 1, z3.Not(same_target), jump), adm(n0)),
+        z3.Implies(z3.And(kd, n >= 2, jump), adm(n1)),
+        z3.Implies(z3.And(kd, n >= 2, z3.Not(jump)), adm(n0)))
+
+
+c = contract(G + "_path_level_constraints", params={"self": SELF, "analysis_keys": KEYS, "block": BB}, returns=T.NoneT,
+             ghost={"v": VISIT}, modifies=[CELLS, "D.dom:Int", MIDS] + OUTER, tags=["C01", "C06", "C07", "C08", "C09", "C10"],
+             touch=["block"])
+for _k in (1, 2, 3):
+    c.loop_havoc[_k] = [CELLS, "D.dom:Int", MIDS] + OUTER
+requires(c, "succ_typed", lambda self, block: _blocks_typed(NBG_LEN, NBG_AT, fn_of(self), block))
+requires(c, "tree", lambda self: VBool(p_tree(self)))
+def _cfg_links(self, block):
+    """consequences of the (verified + naming) contracts of is_retsub_block / is_callsub_block / next_blocks_global for this
+    block: the named observations are the exit-instruction classes, and a plain block's global successors are block.next"""
+    ctx = current()
+    f, b = fn_of(self).term, block.term
+    e = exit_ins(block)
+    nxt = block._next
+    n = ctx.ex.list_len(nxt, ctx.st).term
+    m = z3.Int(fresh_name("cm"))
+    plain = z3.And(z3.Not(block.is_retsub_block.term), z3.Not(block.is_callsub_block.term))
+    return VBool(z3.And(block.is_retsub_block.term == _isinst(e.term, ["Retsub"]), block.is_callsub_block.term == _isinst(e.term, ["Callsub"]),
+                        z3.Implies(plain, z3.And(NBG_LEN(f, b) == n, z3.ForAll([m], z3.Implies(
+                            z3.And(m >= 0, m < n), NBG_AT(f, b, m) == ctx.ex.list_get(nxt, m, ctx.st).term))))))
+
+
+assumes(c, "cfg_links", lambda self, block: _cfg_links(self, block))
+requires(c, "branch_has_target", lambda block: Implies(IsInstance(exit_ins(block), ("BZ", "BNZ")), lambda: Len(block._next) >= 1))   # C04
+requires(c, "distinct_successors", lambda block: Implies(Len(block._next) >= 2, lambda: Not(Eq(block._next[0], block._next[1]))))   # C04
+ensures(c, "edges_exist", lambda self, analysis_keys, block: VBool(p_edges_exist(self, analysis_keys, block)),
+        note="every key has a cell for every out-edge of the block in the global graph")
+ensures(c, "unconstrained_edges", lambda self, analysis_keys, block: Implies(Not(VBool(branch_known(block))), lambda: VBool(
+    p_edges_top(self, analysis_keys, block))), note="an exit other than bz / bnz on a known operand constrains no edge")
+ensures(c, "branch_sound", lambda self, analysis_keys, block, v: Implies(VBool(branch_known(block)), lambda: VBool(
+    _all_j(analysis_keys, lambda j, k: p_edge_sound(self, k, block, v)))),
+    note="bz / bnz on a known operand: the cell of each out-edge admits the key's value in every visit that takes the edge")
+ensures(c, "tree", lambda self: VBool(p_tree(self)))
+invariant(c, 1, "key", lambda it, i, self, analysis_keys, block: And(
+    i <= Len(it), VBool(p_tree(self)), VBool(p_edges_exist(self, analysis_keys, block, upto=i.term)),
+    VBool(p_edges_top(self, analysis_keys, block, upto=i.term))), label="keys_initialised")
+invariant(c, 2, "b", lambda it, i, self, analysis_keys, block, key, path_context, i_key: And(
+    i <= Len(it), VBool(p_tree(self)), In(key, self._path_contexts), VBool(path_context.ref == p_mid(self, key.term).ref),
+    VBool(p_edges_exist(self, analysis_keys, block, upto=i_key.term, inner_upto=i.term, cur_key=key.term)),
+    VBool(p_edges_top(self, analysis_keys, block, upto=i_key.term, inner_upto=i.term, cur_key=key.term))), label="edges_initialised")
+invariant(c, 3, "key", lambda it, i, self, analysis_keys, block, v: And(
+    i <= Len(it), VBool(p_tree(self)), VBool(p_edges_exist(self, analysis_keys, block)),
+    VBool(_all_j(analysis_keys, lambda j, k: p_edge_sound(self, k, block, v), upto=i.term))), label="branch_keys_done")
+must_fail(c, "all_edges_unconstrained", lambda self, analysis_keys, block: VBool(p_edges_top(self, analysis_keys, block)))
+must_fail(c, "jump_cell_admits_fallthrough", lambda self, analysis_keys, block, v: Implies(VBool(branch_known(block)), lambda: VBool(
+    _all_j(analysis_keys, lambda j, k: z3.Implies(z3.And(keydef(v, VStr(k)).term, current().ex.list_len(block._next, current().st).term >= 2),
+                                                   admits(VStr(k), VAbs(A, p_cell(self, k, current().ex.list_get(block._next, 1, current().st).term, block)), v).term)))))
